@@ -100,6 +100,12 @@ func c19Ops(l *c19Live) []c19Op {
 	t := l.tr
 	var ops []c19Op
 	add := func(o c19Op) { ops = append(ops, o) }
+	// --- a service that starts on a directory it did not fill itself ------------------------------------
+	if len(t.Slots) == 0 {
+		// a wallet file lying in the directory under another name than the one recorded inside it (restored from a backup,
+		// renamed by hand, a legacy file): the service is restarted on it; from then on it is wallet w0
+		add(c19Op{Kind: "AdoptRenamedFile", Slot: -1})
+	}
 	// --- CreateWallet ---------------------------------------------------------------------------
 	if len(t.Slots) < c19MaxSlots {
 		used := t.UsedSeeds()
@@ -381,6 +387,29 @@ func (l *c19Live) apply(op c19Op, check bool) (class string, vs []c19Violation) 
 					}
 					t.Created(fn, typ, seed, temp, pw)
 				}
+			}
+		case "AdoptRenamedFile":
+			tmp := freshDir("c19adopt")
+			defer os.RemoveAll(tmp)
+			var ts *wallet.Service
+			if ts, err = wallet.NewService(svcConfig(tmp)); err != nil {
+				panic("harness: " + err.Error())
+			}
+			if _, err = ts.CreateWallet("orig.wlt", wallet.Options{Type: wallet.WalletTypeDeterministic, Seed: seeds[0], Label: "label-1", CryptoType: crypto.CryptoTypeSha256Xor}); err != nil {
+				panic("harness: " + err.Error())
+			}
+			var b []byte
+			if b, err = os.ReadFile(filepath.Join(tmp, "orig.wlt")); err != nil {
+				panic("harness: " + err.Error())
+			}
+			if err = os.WriteFile(filepath.Join(l.dir, "renamed.wlt"), b, 0o600); err != nil {
+				panic("harness: " + err.Error())
+			}
+			var ns *wallet.Service
+			ns, err = wallet.NewService(svcConfig(l.dir))
+			if err == nil {
+				l.svc, s = ns, ns
+				onSuccess = func() { t.Created("renamed.wlt", wallet.WalletTypeDeterministic, 0, false, "") }
 			}
 		case "NewAddresses":
 			n := uint64(1)
